@@ -14,6 +14,10 @@ pub fn cli_rt_cases(mode: &str, tier: &str, seed: u64) -> Vec<Case> {
         if tier != "thorough" && stale == "shorter" { continue; }
         v.push(case(&[("kind", "cli-rt".into()), ("mode", mode.into()), ("len", l.to_string()), ("stale", stale.into()), ("seed", rng.next().to_string())]));
     } }
+    // what the plaintext IS must not matter: all zeros, a long zero tail (a disk image), a zero head, one repeated byte, text
+    for content in ["zeros", "zero-tail", "zero-head", "ff", "text"] { for &l in &[10000usize, 73728] {
+        v.push(case(&[("kind", "cli-rt".into()), ("mode", mode.into()), ("len", l.to_string()), ("stale", "none".into()), ("content", content.into()), ("seed", rng.next().to_string())]));
+    } }
     v
 }
 
@@ -22,12 +26,14 @@ pub fn run_cli_rt(c: &Case, m: &mut Model) -> Outcome {
     let fx = fixtures();
     let mut rng = Rng::new(get(c, "seed").parse().unwrap_or(0));
     let keym = get(c, "mode") == "key"; let len = getn(c, "len"); let stale = get(c, "stale");
-    let plain = crate::gen::payload(rng.next(), len);
+    let mut plain = crate::gen::payload(rng.next(), len);
+    match get(c, "content") { "zeros" => plain.iter_mut().for_each(|b| *b = 0), "zero-tail" => { let k = len.saturating_sub(len.min(8192)); plain[k..].iter_mut().for_each(|b| *b = 0) } "zero-head" => { let k = len.min(8192); plain[..k].iter_mut().for_each(|b| *b = 0) }
+        "ff" => plain.iter_mut().for_each(|b| *b = 0xff), "text" => plain.iter_mut().enumerate().for_each(|(i, b)| *b = b"the quick brown fox\n"[i % 20]), _ => {} }
     let kr = keyring(&[(&fx.alice, true), (&fx.bob, true)]).into_bytes();
     let pw = "pass phrase 123";
     let clen = (if keym { 132 } else { 36 }) + 32 * len.div_ceil(65536).max(1) + len;
     let old = |n: usize, rng: &mut Rng| -> Option<Vec<u8>> { match stale { "none" => None, "shorter" => Some(rng.bytes(n / 2 + 1)), _ => Some(rng.bytes(n + 4985)) } };
-    o.tags.push(format!("cli-rt {} stale={}", get(c, "mode"), stale)); o.nontrivial = Some(format!("cli-rt/{}/{}/{}", get(c, "mode"), len, stale));
+    o.tags.push(format!("cli-rt {} stale={}", get(c, "mode"), stale)); o.nontrivial = Some(format!("cli-rt/{}/{}/{}/{}", get(c, "mode"), len, stale, get(c, "content")));
     // step 1: encrypt p -> c
     let mut files = vec![("p".to_string(), plain.clone())]; if keym { files.push(("kr".into(), kr.clone())); }
     if let Some(b) = old(clen, &mut rng) { files.push(("c".into(), b)); }
